@@ -19,6 +19,13 @@ through the validating constructor `Cell.mk?` (all cells the models ADD — wind
 exactly as the Python code builds them through `Cell(...)`/`cell.replace(...)`; when the constructor
 refuses, the operation raises and the theorem's hypothesis `= .ok t'` is false).
 No statement is weakened: there is no `step2_sorted_kind` fallback and no OPEN item.
+
+Second extension (`Op3`, `Model/AllOps2.lean`, theorems `step3_canonical` / `run3_canonical` below): the
+operations with FUNCTION arguments — `derive_fields`, `derive_metadata`, `replace`, `filter` with callables
+given as expressions of `Fn.Ex` (whose leaf `opaque f` is an arbitrary function of the cell, so the theorems
+speak about every callable) —, the Set mixins `| & - ^`, `sum`, `t[i]`, `loose_period_merge`,
+`shift_origin`, `weight_geometric_decay`, `paid_bs_adjustment`, `reported_bs_adjustment` (value computations
+as opaque callables) and the tabular round trips `reader ∘ writer` (wide, long, array frame, matrix).
 -/
 import Bermuda.Model.AllOps
 import Bermuda.Properties.C01
@@ -28,6 +35,9 @@ import Bermuda.Lemmas.AllOpsExtend
 import Bermuda.Lemmas.AllOpsUnits
 import Bermuda.Lemmas.AllOpsJson
 import Bermuda.Lemmas.AllOpsEval
+import Bermuda.Model.AllOps2
+import Bermuda.Lemmas.AllOps2
+import Bermuda.Lemmas.AllOps3
 namespace Bermuda.Properties.C01Ext
 open Bermuda Bermuda.Properties.C01 Bermuda.AllOps
 
@@ -169,6 +179,109 @@ theorem run2_base (t : List Cell) (ops : List Op) : run2 t (ops.map Op2.base) = 
     simp only [List.map_cons, run2, run, step2]
     split <;> simp_all
 
+/-! ### second extension (`Op3`, Model/AllOps2.lean): function arguments, Set mixins, `sum`, `t[i]`,
+`loose_period_merge`, `shift_origin`
+
+The callables of `derive_fields` / `derive_metadata` / `replace` / `filter` are expressions of `Fn.Ex`; the
+theorems hold for EVERY expression (the proofs never unfold `Fn.Ex.eval`): whatever a definition
+computes, the new cell is built by the validating constructor, and `Triangle(...)` re-sorts. -/
+
+/-- operands that contribute CELLS must be canonical triangles: the right operand of `| & ^`, the further
+triangles of `sum`. `t - other`, `loose_period_merge` (right side contributes values only) and
+`shift_origin` (the other triangle only fixes the shift) need nothing. -/
+def _root_.Bermuda.Op3.argsCanonical : Op3 → Prop
+  | .base op => op.argsCanonical
+  | .union o => Canonical o
+  | .inter o => Canonical o
+  | .symdiff o => Canonical o
+  | .sum others => ∀ o ∈ others, Canonical o
+  | .makePredTriangleWithInit a => ∀ p, a.pred = some p → Canonical p
+  | _ => True
+
+/-- `t[i]` returns a cell of the triangle: it satisfies the date rules -/
+theorem cellAt_datesOk {t : List Cell} {i : Int} {c : Cell} (ht : Canonical t)
+    (h : Fn.cellAt t i = .ok c) : c.datesOk = true :=
+  ht.2.2 c (cellAt_mem h)
+
+/-- the wide reader (`from_wide_data_frame` / `from_wide_csv`) returns a canonical triangle for EVERY table
+it accepts, not only for what `to_wide_*` writes -/
+theorem fromWideRows_canonical {tb : Frame.Table} {f d l : List String} {r : List Cell}
+    (h : Frame.fromWideRows tb f d l = .ok r) : Canonical r :=
+  AllOps.fromWideRows_canonical h
+
+/-- the long reader returns a canonical triangle for every table it accepts -/
+theorem fromLongRows_canonical {tb : Frame.Table} {l : List String} {r : List Cell}
+    (h : Frame.fromLongRows tb l = .ok r) : Canonical r :=
+  AllOps.fromLongRows_canonical h
+
+/-- the array-frame reader returns a canonical triangle for every frame it accepts -/
+theorem fromArrayFrame_canonical {rows : List Frame.ArrayRow} {field : String} {md : Metadata}
+    {res : Option Int} {r : List Cell} (h : Frame.fromArrayFrame rows field md res = .ok r) : Canonical r :=
+  AllOps.fromArrayFrame_canonical h
+
+/-- `matrix_to_triangle` returns a canonical triangle for every matrix it accepts -/
+theorem fromMatrix_canonical {m : Frame.Matrix} {r : List Cell} (h : Frame.fromMatrix m = .ok r) :
+    Canonical r :=
+  AllOps.fromMatrix_canonical h
+
+/-- **Every operation of `Op3` returns a canonical triangle.** -/
+theorem step3_canonical {t t' : List Cell} (op : Op3) (ht : Canonical t) (ho : op.argsCanonical)
+    (h : step3 t op = .ok t') : Canonical t' := by
+  cases op with
+  | base op => exact step2_canonical op ht ho h
+  | deriveFields defs => exact deriveFields_canonical (allOk_of ht) h
+  | deriveMetadataFn defs => exact deriveMetadataFn_canonical (allOk_of ht) h
+  | replaceFn defs => exact replaceFn_canonical h
+  | filterFn pred => exact filterFn_canonical (allOk_of ht) h
+  | union o => exact union_canonical (allOk_of ht) (allOk_of ho) h
+  | inter o => exact inter_canonical (allOk_of ho) h
+  | diff o => exact diff_canonical (allOk_of ht) h
+  | symdiff o => exact symdiff_canonical (allOk_of ht) (allOk_of ho) h
+  | sum others => exact sumOf_canonical ht (fun o hmem => allOk_of (ho o hmem)) h
+  | cellAt i =>
+    simp only [step3] at h
+    split at h <;> cases h
+  | loosePeriodMerge o suffix => exact loosePeriodMerge_canonical (allOk_of ht) h
+  | shiftOrigin m => exact shiftOrigin_canonical h
+  | weightGeometricDecay a w scaled => exact weightGeometricDecay_canonical (allOk_of ht) h
+  | paidBsAdjustment ult dr pl => exact paidBsAdjustment_canonical h
+  | reportedBsAdjustment method first second trend => exact reportedBsAdjustment_canonical ht h
+  | wideRoundTrip f d l => exact wideRoundTrip_canonical h
+  | longRoundTrip l => exact longRoundTrip_canonical h
+  | arrayRoundTrip field md res => exact arrayRoundTrip_canonical h
+  | matrixRoundTrip => exact matrixRoundTrip_canonical h
+  | dropOffDiagonals => exact dropOffDiagonals_canonical (allOk_of ht) h
+  | toSlice => exact toSlice_canonical (allOk_of ht) h
+  | sliceToTriangle => exact sliceToTriangle_canonical (allOk_of ht) h
+  | makePredTriangleWithInit a => exact makePredTriangleWithInit_canonical ho h
+  | disaggregateDevelopment a vals => exact disaggregateDevelopment_canonical ht h
+  | disaggregate resExp weights a vals => exact disaggregate_canonical ht h
+
+/-- **Every chain over `Op3` keeps the canonical form** (induction over the list). -/
+theorem run3_canonical {t t' : List Cell} (ops : List Op3) (ht : Canonical t)
+    (ho : ∀ op ∈ ops, op.argsCanonical) (h : run3 t ops = .ok t') : Canonical t' := by
+  induction ops generalizing t with
+  | nil => simp [run3] at h; subst h; exact ht
+  | cons op ops ih =>
+    simp only [run3] at h
+    split at h
+    · rename_i t₁ h₁
+      exact ih (step3_canonical op ht (ho op (by simp)) h₁) (fun o ho' => ho o (by simp [ho'])) h
+    · cases h
+
+/-- the executable Spec predicate holds on every model result of an `Op3` chain -/
+theorem run3_isCanonical {t t' : List Cell} (ops : List Op3) (ht : Canonical t)
+    (ho : ∀ op ∈ ops, op.argsCanonical) (h : run3 t ops = .ok t') : Spec.isCanonical t' = true :=
+  isCanonical_of_canonical (run3_canonical ops ht ho h)
+
+/-- a chain over `Op2` is a chain over `Op3` -/
+theorem run3_base (t : List Cell) (ops : List Op2) : run3 t (ops.map Op3.base) = run2 t ops := by
+  induction ops generalizing t with
+  | nil => rfl
+  | cons op ops ih =>
+    simp only [List.map_cons, run3, run2, step3]
+    split <;> simp_all
+
 /-! ### non-vacuity: a concrete chain with six of the new operations
 
 `coalesce` (one operand cell loses against an occupied coordinate, one is new), `add_statics`, `clip` on
@@ -253,5 +366,81 @@ example : Canonical exT6 ∧ exT6.length = 4 ∧
     (exT6.getLast?.map fun c => c.values.keys) = some ["paid_loss", "earned_premium", "incurred_loss"] :=
   ⟨run2_canonical exChain exT_canonical exChain_args exChain_runs, by decide +kernel, by decide +kernel,
    by decide +kernel⟩
+
+/-! ### non-vacuity of `run3_canonical`: a chain of five `Op3` operations with function arguments
+
+`derive_metadata(lob=lambda c: "C" if c.evaluation_date.month == 3 else c.details["lob"])` moves the two
+cells evaluated in March into two NEW slices, so the constructor really re-sorts (the mapped list `exL1` is
+not in order; `exS1` is the sorted sequence); then `filter(lambda c: c["paid_loss"] > 5)`,
+`derive_fields(double=lambda c: c["paid_loss"] * 2)`, `replace(period_end=lambda c: c.evaluation_date)` and
+`| other`. Each step is evaluated by the kernel up to its `Triangle(...)`; the constructor call is discharged by
+`ofCells_eval_perm` (first step: a genuine permutation) or `ofCells_eval`. -/
+
+section nonvacuity3
+open Bermuda.Fn
+
+def exAc : Metadata := { details := [("lob", .str "C")] }
+def exBc : Metadata := { details := [("lob", .str "C")], country := some "US" }
+
+def exLob : Ex :=
+  .ite (.bin .eq (.month (.cattr .evaluationDate)) (.const (.int 3))) (.const (.str "C")) (.detail "lob")
+def exBig : Ex := .bin .gt (.field "paid_loss") (.const (.int 5))
+def exDouble : Ex := .bin .mul (.field "paid_loss") (.const (.int 2))
+def exU : List Cell := [ exCell exB 2 2 3 ]
+
+def exChain3 : List Op3 :=
+  [ .deriveMetadataFn [("lob", exLob)], .filterFn exBig, .deriveFields [("double", exDouble)],
+    .replaceFn [.periodEnd (.cattr .evaluationDate)], .union exU ]
+
+/-- `map` of the first step, in the order of the input -/
+def exL1 : List Cell :=
+  [ { exCell exA 1 1 10 with md := exAc }, exCell exA 1 2 20, exCell exA 1 3 25, exCell exA 2 2 7, exCell exA 2 3 9,
+    { exCell exB 1 1 1 with md := exBc }, exCell exB 1 2 2 ]
+/-- the same cells as the constructor returns them -/
+def exS1 : List Cell :=
+  [ exCell exA 1 2 20, exCell exA 1 3 25, exCell exA 2 2 7, exCell exA 2 3 9, { exCell exA 1 1 10 with md := exAc },
+    exCell exB 1 2 2, { exCell exB 1 1 1 with md := exBc } ]
+def exS2 : List Cell := exS1.take 5
+def exS3 : List Cell := exS2.map fun c =>
+  { c with values := c.values ++ [("double", match c.values.get? "paid_loss" with | some (.int i) => .int (i * 2) | _ => .none)] }
+def exS4 : List Cell := exS3.map fun c => { c with pe := c.ev }
+def exS5 : List Cell := exS4 ++ exU
+
+theorem exL1_not_sorted : ¬ exL1.Pairwise (fun a b => Cell.le a b) := by decide +kernel
+theorem exS1_canonical : Canonical exS1 := ⟨by decide +kernel, by decide +kernel, by decide +kernel⟩
+theorem exS2_canonical : Canonical exS2 := ⟨by decide +kernel, by decide +kernel, by decide +kernel⟩
+theorem exS3_canonical : Canonical exS3 := ⟨by decide +kernel, by decide +kernel, by decide +kernel⟩
+theorem exS4_canonical : Canonical exS4 := ⟨by decide +kernel, by decide +kernel, by decide +kernel⟩
+theorem exS5_canonical : Canonical exS5 := ⟨by decide +kernel, by decide +kernel, by decide +kernel⟩
+
+theorem exChain3_runs : run3 exT exChain3 = .ok exS5 := by
+  unfold exChain3
+  rw [run3_cons (deriveMetadataFn_eval (L := exL1) (okIs_eq (by decide +kernel))
+        (ofCells_eval_perm (by decide +kernel) (by decide +kernel) exS1_canonical))]
+  rw [run3_cons (filterFn_eval (L := exS2) (okIs_eq (by decide +kernel)) (ofCells_eval rfl exS2_canonical))]
+  rw [run3_cons (deriveFields_eval (L := exS3) (okIs_eq (by decide +kernel)) (ofCells_eval rfl exS3_canonical))]
+  rw [run3_cons (replaceFn_eval (L := exS4) (okIs_eq (by decide +kernel)) (ofCells_eval rfl exS4_canonical))]
+  rw [run3_cons (union_eval (ofCells_eval rfl exS5_canonical))]
+  rfl
+
+theorem exChain3_args : ∀ op ∈ exChain3, op.argsCanonical := by
+  intro op hop
+  simp only [exChain3, List.mem_cons, List.not_mem_nil, or_false] at hop
+  rcases hop with rfl | rfl | rfl | rfl | rfl
+  · trivial
+  · trivial
+  · trivial
+  · trivial
+  · exact ⟨by decide +kernel, by decide +kernel, by decide +kernel⟩
+
+/-- the hypotheses of `run3_canonical` are met and the chain really runs: the function-argument
+`derive_metadata` produces an unsorted list that the constructor re-sorts into four slices; the final
+triangle has six cells, the derived field is there, and every `period_end` was replaced -/
+example : Canonical exS5 ∧ exS5.length = 6 ∧ (metasOf exS5).length = 3 ∧
+    (exS5.head?.map fun c => (c.values.keys, c.pe == c.ev)) = some (["paid_loss", "earned_premium", "double"], true) :=
+  ⟨run3_canonical exChain3 exT_canonical exChain3_args exChain3_runs, by decide +kernel, by decide +kernel,
+   by decide +kernel⟩
+
+end nonvacuity3
 
 end Bermuda.Properties.C01Ext
